@@ -1,12 +1,16 @@
 //! Auxiliary drivers: CLI text (C51), benchmark validation (C46), plan transport (C35-C38), FFI (C45).
 mod c46;
+mod c35x;
 mod c51;
+mod transport;
 
 fn main() {
     let a: Vec<String> = std::env::args().collect();
     let cmd = a.get(1).map(|s| s.as_str()).unwrap_or("");
     match cmd {
         "c46" => c46::main(),
+        "transport" => transport::main(),
+        "c35-exprs" => c35x::main(),
         "c51-split" => c51::split_main(),
         "c51-print" => c51::print_main(),
         "c51-repl" => c51::repl_main(),
